@@ -73,6 +73,22 @@ type sinkW struct {
 
 func (s *sinkW) Write(p []byte) (int, error) { s.foreignWrites++; return len(p), nil }
 
+// bulk is a reader of left bytes that hands out whatever the destination already holds (the content does not
+// matter to the caller of this one), as much as is asked for.
+type bulk struct{ left int64 }
+
+func (b *bulk) Read(p []byte) (int, error) {
+	if b.left == 0 {
+		return 0, io.EOF
+	}
+	n := int64(len(p))
+	if n > b.left {
+		n = b.left
+	}
+	b.left -= n
+	return int(n), nil
+}
+
 type oneByte struct{ r io.Reader }
 
 func (o oneByte) Read(p []byte) (int, error) {
@@ -601,6 +617,26 @@ func run(c *mon.Ctx) {
 				doReadFrom(c, k, tail, -1, failR, rk, rk%4, r)
 			}
 		}
+	})
+	// a stream of more than 4 GiB through one ReadFrom call (a long recording, a live feed): the count returned is
+	// an int64 and is the number of bytes delivered; the packets are only counted here, their content is not looked at
+	c.StreamSeedless("readfrom-more-than-4GiB", 2, func(i int, r *gen.Rand) {
+		total := int64(1)<<32 + int64([]int{188 * 29, 95}[i]) // 2^32 is not a multiple of 188: 2^32+95 is; the first ends in a partial packet
+		var delivered int64
+		w := packet.IOWriter(packet.PacketWriterFunc(func(p *packet.Packet) (int, error) {
+			delivered += 188
+			return 188, nil
+		}))
+		n, err := w.(io.ReaderFrom).ReadFrom(&bulk{left: total})
+		c.Eval(1)
+		c.Count("readfrom.streams_over_4GiB")
+		want := total / 188 * 188
+		partial := total%188 != 0
+		if n != want || delivered != want || partial != (err == gots.ErrInvalidPacketLength) || (!partial && err != nil) {
+			c.Fail("ReadFrom:count-of-a-very-long-stream", fmt.Sprintf("ReadFrom on a stream of %d bytes returned %d, %v; %d bytes were delivered to the packet writer (%d whole packets are %d bytes)", total, n, err, delivered, want/188, want),
+				wit{Op: "ReadFrom", Packets: int(want / 188), Tail: int(total % 188), Reader: "hands out the requested number of bytes until the stream is over", Got: fmt.Sprint(n), Want: fmt.Sprint(want)})
+		}
+		c.Class(fmt.Sprintf("readfrom/over-4GiB/partial=%v", partial))
 	})
 	// adapters in use at the same time: one feeding another (a packet writer that forwards through a second
 	// adapter), and adapters of their own in several goroutines; some calls fail on the way
